@@ -16,7 +16,7 @@ Theorem step_correct e k o s a : no_where o = true ->
   scope e o -> op_kf e k o = 0 -> kinv s -> qseteq (quads s) a -> step_ok e k o s a.
 Proof.
   intros Hnw Hd Hkf Hk Ha.
-  destruct o as [ts qs|ts qs|tm om|w ud un d i om|tm|w ud un d i p|sl g|sl g|sl x y|sl x y|sl x y|sl c|w ud un d i om].
+  destruct o as [ts qs|ts qs|tm om|w ud un d i om|tm|w ud un d i p|sl g|sl g|sl x y|sl x y|sl x y|sl c].
   - apply insert_data_ok; auto.
   - apply delete_data_ok; auto.
   - apply delete_where_ok; auto.
@@ -29,7 +29,6 @@ Proof.
   - apply move_ok; auto.
   - apply copy_ok; auto.
   - destruct sl; [|discriminate]. exists s. simpl. auto.
-  - apply modify_s_ok; auto.
 Qed.
 
 Lemma step_correct2 e k o s a : scope e o -> no_where o = true ->
@@ -43,7 +42,7 @@ Lemma eval_op_union e u k o s : no_where o = true ->
 Proof. destruct o; try discriminate; reflexivity. Qed.
 
 Lemma kf_from_cons e k o r : kf_from e k (o :: r) = 0 -> op_kf e k o = 0 /\ kf_from e (N.succ k) r = 0.
-Proof. simpl. destruct (op_kf e k o); auto. discriminate. Qed.
+Proof. intros H. split; [reflexivity|exact H]. Qed.
 
 (* a request: the operations in order *)
 Theorem sequence_correct e ops : forall k s a,
@@ -242,7 +241,7 @@ Proof.
         assert (Hs : scope (c_env c) o).
         { destruct Hd as [Hd|Hd]; [left; auto|right]. simpl in Hd. apply andb_true_iff in Hd.
           apply negb_true_iff. tauto. }
-        destruct o as [| | | |tm0|w usingd usingn del ins where_| | | | | |[|] c0|]; try discriminate; [| |destruct Ow].
+        destruct o as [| | | |tm0|w usingd usingn del ins where_| | | | | |[|] c0]; try discriminate; [| |destruct Ow].
         - destruct (step_delete_where (c_env c) 0 (init_state c) tm0 (Os eq_refl) K0 Hs Ow) as [s1 H1].
           exists s1. tauto.
         - destruct Ow as [Hw [Ld Li]].
@@ -283,7 +282,6 @@ Definition op_graphs (e : env) (o : uop) (c : cid) : Prop :=
   | DeleteWhereW _ => True
   | ModifyW _ _ _ _ _ _ => True
   | Create _ _ => False
-  | ModifyS _ _ _ _ _ _ => True
   | Clear _ g | Drop _ g =>
       match g with GDefault => c = dflt e | GNamed => c <> dflt e | GAll => True | GIri x => c = x end
   | Add _ _ y => c = gd_cid e y
@@ -292,10 +290,10 @@ Definition op_graphs (e : env) (o : uop) (c : cid) : Prop :=
   end.
 
 Lemma spec_untouched_data e k o a c :
-  match o with Modify _ _ _ _ _ _ | ModifyS _ _ _ _ _ _ | ModifyW _ _ _ _ _ _ | DeleteWhere _ _ | DeleteWhereW _ => False | _ => True end ->
+  match o with Modify _ _ _ _ _ _ | ModifyW _ _ _ _ _ _ | DeleteWhere _ _ | DeleteWhereW _ => False | _ => True end ->
   ~ op_graphs e o c -> forall t, In (t, c) (spec_op e k o a) <-> In (t, c) a.
 Proof.
-  intros Hk Hn t. destruct o as [ts qs|ts qs|tm om|w ud un d i om|tm|w ud un d i p|sl g|sl g|sl x y|sl x y|sl x y|sl c0|w ud un d i om];
+  intros Hk Hn t. destruct o as [ts qs|ts qs|tm om|w ud un d i om|tm|w ud un d i p|sl g|sl g|sl x y|sl x y|sl x y|sl c0];
     simpl in *; try tauto.
   - rewrite in_app_iff. unfold data_quads. rewrite in_app_iff, to_graph_In, in_flat_map. simpl.
     split; [|tauto]. intros [H|[[_ H]|[b [Hb H]]]]; auto; exfalso; apply Hn; auto.
@@ -363,7 +361,6 @@ Definition op_bounded (n : N) (o : uop) : Prop :=
   | InsertData ts qs => triples_bounded n ts /\ forall b, In b qs -> triples_bounded n (snd b)
   | Modify _ _ _ _ (Some i) om => tmpl_bounded n i /\ omega_bounded n om
   | ModifyW _ _ _ _ _ _ => False   (* not covered: the bound values are computed *)
-  | ModifyS _ _ _ _ _ _ => False   (* as Modify; not repeated here *)
   | _ => True
   end.
 
@@ -432,7 +429,7 @@ Theorem older_step e k o a : op_bounded (window k) o -> older (window k) a ->
 Proof.
   intros Hb Ho. pose proof (window_mono k) as Hm.
   assert (Ho' : older (window (k + 1)) a) by (eapply older_mono; eauto).
-  destruct o as [ts qs|ts qs|tm om|w ud un d i om|tm|w ud un d i p|sl g|sl g|sl x y|sl x y|sl x y|sl c0|w ud un d i om]; simpl;
+  destruct o as [ts qs|ts qs|tm om|w ud un d i om|tm|w ud un d i p|sl g|sl g|sl x y|sl x y|sl x y|sl c0]; simpl;
     intros q Hq t Ht; try (destruct Hb; fail).
   - apply in_app_iff in Hq. destruct Hq as [Hq|Hq]; [eapply Ho'; eauto|].
     destruct Hb as [B1 B2]. apply data_quads_In' in Hq.
@@ -623,13 +620,18 @@ Proof.
 Qed.
 
 
+Lemma no_trigger e k o : op_kf e k o = 0.
+Proof. reflexivity. Qed.
+
+Lemma kf_from_zero e ops : forall n, kf_from e n ops = 0.
+Proof. induction ops as [|o r IH]; intros n; simpl; auto. Qed.
+
 (* requests all of whose solution lists are given: only well-formedness is assumed *)
-Theorem spec_ok_model_given c : wf c -> forallb no_where (c_ops c) = true -> kf c = 0 ->
-  spec_ok c (model_obs c) = true.
+Theorem spec_ok_model_given c : wf c -> forallb no_where (c_ops c) = true -> spec_ok c (model_obs c) = true.
 Proof.
-  intros W N K. apply spec_ok_model; auto.
+  intros W N. apply spec_ok_model; auto; [|apply kf_from_zero].
   unfold in_model_where. destruct (c_ops c) as [|o r]; auto.
   simpl in N. apply andb_true_iff in N. destruct N as [N1 N2].
   split; [|split; [intros H; congruence|exact N2]].
-  destruct o as [| | | | | | | | | | |[|] ?|]; try exact I; discriminate.
+  destruct o as [| | | | | | | | | | |[|] ?]; try exact I; discriminate.
 Qed.
